@@ -426,20 +426,101 @@ func isInduction(v ssa.Value) bool {
 	return false
 }
 
+// pairsInner: the induction variable starts at outer+1 where outer is itself an induction variable over all
+// elements (the all-pairs idiom).
+func pairsInner(phi *ssa.Phi) bool {
+	for i, e := range phi.Edges {
+		if phi.Block().Dominates(phi.Block().Preds[i]) {
+			continue
+		}
+		bo, ok := e.(*ssa.BinOp)
+		if !ok || bo.Op != token.ADD {
+			return false
+		}
+		k, ok := bo.Y.(*ssa.Const)
+		if !ok || k.Value == nil || k.Value.ExactString() != "1" {
+			return false
+		}
+		outer := bo.X
+		// rotated range form: outer index is (phi + 1) with phi starting at -1
+		if ob, ok := outer.(*ssa.BinOp); ok && ob.Op == token.ADD {
+			if ok1, isC := ob.Y.(*ssa.Const); isC && ok1.Value != nil && ok1.Value.ExactString() == "1" {
+				if op, isPhi := ob.X.(*ssa.Phi); isPhi && isInduction(op) {
+					if s0, known := inductionStart(op); known && s0 == -1 {
+						continue
+					}
+				}
+			}
+			return false
+		}
+		op, isPhi := outer.(*ssa.Phi)
+		if !isPhi || !isInduction(op) {
+			return false
+		}
+		if s0, known := inductionStart(op); !known || s0 != 0 {
+			return false
+		}
+	}
+	return true
+}
+
+// inductionStart: the constant an induction variable starts from (all non-back edges agree).
+func inductionStart(phi *ssa.Phi) (int64, bool) {
+	var start int64
+	seen := false
+	for i, e := range phi.Edges {
+		if phi.Block().Dominates(phi.Block().Preds[i]) {
+			continue // back edge
+		}
+		k, ok := e.(*ssa.Const)
+		if !ok || k.Value == nil {
+			return 0, false
+		}
+		n, exact := constant.Int64Val(k.Value)
+		if !exact || (seen && n != start) {
+			return 0, false
+		}
+		start, seen = n, true
+	}
+	return start, seen
+}
+
 func (pv *Prov) indexAtom(idx ssa.Value, env *Env) string {
 	if c, ok := idx.(*ssa.Const); ok && c.Value != nil {
 		return c.Value.ExactString()
 	}
+	// "[*]" quantifies over EVERY element: only an induction variable that starts at the first element qualifies
+	// (i from 0; or the rotated range form, -1 incremented before use). A loop that starts later ("for i := 1; …")
+	// or an offset index (x[i-1]) visits only part of the collection.
+	star := func(start int64, known bool) string {
+		if known && start == 0 {
+			return "*"
+		}
+		if known {
+			return fmt.Sprintf("*from%d", start)
+		}
+		return "*from?"
+	}
 	if isInduction(idx) {
-		return "*"
+		s0, ok := inductionStart(idx.(*ssa.Phi))
+		if !ok && pairsInner(idx.(*ssa.Phi)) {
+			return "*" // for i := range x { for j := i+1; j < len(x); j++ }: every unordered pair is visited
+		}
+		return star(s0, ok)
 	}
 	// conversion of an induction variable, or the incremented induction variable of a range loop
 	if cv, ok := idx.(*ssa.Convert); ok && isInduction(cv.X) {
-		return "*"
+		s0, ok := inductionStart(cv.X.(*ssa.Phi))
+		return star(s0, ok)
 	}
-	if bo, ok := idx.(*ssa.BinOp); ok && bo.Op == token.ADD {
-		if _, isC := bo.Y.(*ssa.Const); isC && isInduction(bo.X) {
-			return "*"
+	if bo, ok := idx.(*ssa.BinOp); ok && (bo.Op == token.ADD || bo.Op == token.SUB) {
+		if k, isC := bo.Y.(*ssa.Const); isC && isInduction(bo.X) && k.Value != nil {
+			s0, ok := inductionStart(bo.X.(*ssa.Phi))
+			d, ok2 := constant.Int64Val(k.Value)
+			if bo.Op == token.SUB {
+				d = -d
+			}
+			return star(s0+d, ok && ok2)
 		}
 	}
 	a := pv.Atom(idx, env)
